@@ -6,6 +6,10 @@
      O <op> <args>                        model steps of the body, in order (syntax of c06_driver.ml)
      C <kind> <mutated 0|1> <io|logical|panic> <poisoned before> <latched before> <poisoned after> <latched after>
                                           a call that FAILED: the flags observed around it
+     L <kind> <staged 0|1|-> <poisoned after> <latched after>    the same for an argument / state error after a damaged read
+     K <kind> <unreported part staged 0|1|-> <poisoned after> <latched after>
+                                          a call that failed with Err(Corrupted) (a corrupted read: harness c05c) in a
+                                          transaction that was not poisoned; `-`: entry-by-entry call, staged not judged
      E <abort|drop|commit> <poisoned 0|1> <latched 0|1> <result>    how the transaction ended and what the call returned
      Q k=v ...                            observed abstract state after the end               (mode A)
    stdout, one line per block:
@@ -16,6 +20,8 @@
            observed poisoned / latched flags of every failed call.  For I/O errors the b-tree's internal
            "lost changes" flag is not observable, so there the model's poisoned flag is a lower bound:
            model poisoned => observed poisoned; logical errors must not have mutated the transaction.
+           K lines: extracted `corrupt_outcome_ok` / `corrupt_poison_ok` (theorem corrupt_outcome_sound: every
+           outcome the model can produce passes) must accept the observed pair; a corrupted read never latches.
    END   = extracted `commit_result` against the observed result of commit(); abort() fails iff latched. *)
 open C05_model
 
@@ -123,10 +129,10 @@ let diff_fields (m : st) (o : st) : string list =
 let kind_of = function
   | "write" -> KWrite | "rename" -> KRename | "delete" -> KDelete | "restore" -> KRestore
   | "retain" -> KRetain | "extract" -> KExtract | "cursor" -> KCursor | "savepoint" -> KSavepoint
-  | "spdelete" -> KSpDelete | "setting" -> KSetting
+  | "spdelete" -> KSpDelete | "setting" -> KSetting | "multimap" -> KMultimap
   | s -> failwith ("bad kind " ^ s)
 let errk_of = function
-  | "io" -> EIo | "logical" -> ELogical | "panic" -> EPanic
+  | "io" -> EIo | "logical" -> ELogical | "panic" -> EPanic | "corrupt" -> ECorrupt
   | s -> failwith ("bad error kind " ^ s)
 
 type block = {
@@ -146,7 +152,8 @@ let flush (b : block) =
       | [k; m; e; po0; io0; po1; io1] ->
         let k = kind_of k and e = errk_of e in
         let mut = (m = "1") in
-        let (mpo, mio) = flags_after k mut e false (po0 = "1") (io0 = "1") in
+        (* the PartialUpdateGuard of a multimap call is armed at the latest when it mutates (lower bound) *)
+        let (mpo, mio) = flags_after k mut e false mut (po0 = "1") (io0 = "1") in
         let opo = (po1 = "1") and oio = (io1 = "1") in
         (match e with
          | EIo ->
@@ -155,8 +162,23 @@ let flush (b : block) =
          | ELogical ->
            if mut then bad := Printf.sprintf "%d:logical-error-after-mutation" i :: !bad;
            if mpo <> opo || mio <> oio then bad := Printf.sprintf "%d:flags(model=%b/%b,observed=%b/%b)" i mpo mio opo oio :: !bad
-         | EPanic ->
+         | EPanic | ECorrupt ->
            if mpo <> opo || mio <> oio then bad := Printf.sprintf "%d:flags(model=%b/%b,observed=%b/%b)" i mpo mio opo oio :: !bad)
+      | ["L"; k; st; po1; io1] ->
+        (* an argument / state error reported after a damaged read: either a plain logical error (before any
+           mutation, flags unchanged) or a failure caused by the damaged bytes (judged like Err(Corrupted)) *)
+        let kk = kind_of k in
+        let opo = (po1 = "1") in
+        let plain = (st <> "1") && (flags_after kk false ELogical false false false false = (opo, io1 = "1")) in
+        let corrupt = (io1 <> "1") && (if st = "-" then corrupt_poison_ok kk opo else corrupt_outcome_ok kk (st = "1") opo) in
+        if not (plain || corrupt) then
+          bad := Printf.sprintf "%d:logical-error-outcome(kind=%s,staged=%s,poisoned=%b)-not-allowed-by-the-model" i k st opo :: !bad
+      | ["K"; k; st; po1; io1] ->
+        let kk = kind_of k in
+        let opo = (po1 = "1") in
+        if io1 = "1" then bad := Printf.sprintf "%d:corrupted-read-latched" i :: !bad;
+        let ok = if st = "-" then corrupt_poison_ok kk opo else corrupt_outcome_ok kk (st = "1") opo in
+        if not ok then bad := Printf.sprintf "%d:corrupt-outcome(kind=%s,staged=%s,poisoned=%b)-not-allowed-by-the-model" i k st opo :: !bad
       | _ -> bad := Printf.sprintf "%d:unparsed" i :: !bad) (List.rev b.calls);
     let flags = if !bad = [] then "ok" else "DIFF:" ^ String.concat "," (List.rev !bad) in
     let fin = match b.fin with
@@ -171,6 +193,7 @@ let flush (b : block) =
            let want = if io then "ioerr" else "ok" in
            if want = res then "ok" else Printf.sprintf "DIFF:abort(model=%s,observed=%s)" want res
          | _ -> "ok")
+      | Some ("none" :: _) -> "ok"
       | _ -> "DIFF:no-end" in
     Printf.printf "%s S3=%s FLAGS=%s END=%s\n" b.label s3 flags fin
   end
@@ -189,6 +212,8 @@ let () =
          | "Q" :: fields -> b.post <- Some (parse_state fields)
          | "O" :: args -> b.ops <- parse_op args :: b.ops
          | "C" :: args -> b.calls <- args :: b.calls
+         | "K" :: args -> b.calls <- ("K" :: args) :: b.calls
+         | "L" :: args -> b.calls <- ("L" :: args) :: b.calls
          | "E" :: args -> b.fin <- Some args
          | _ -> failwith ("bad line: " ^ (String.sub line 0 (min 40 (String.length line))))
        end
